@@ -29,7 +29,7 @@ SHAPES = {
 }
 
 
-def gen_module(rnd, n_funcs):
+def gen_module(rnd, n_funcs, style='freeform'):
     lines = []
     expect = {}
     for k in range(n_funcs):
@@ -39,32 +39,34 @@ def gen_module(rnd, n_funcs):
         lines.append('    """')
         lines.append('    %s' % shape)
         lines.append('')
+        if style == 'google':
+            lines.append('    Example:')
         for ln in body:
-            lines.append('    ' + ln)
+            lines.append(('        ' if style == 'google' else '    ') + ln)
         lines.append('    """')
         lines.append('')
         expect['func%d:0' % k] = outcome
     return '\n'.join(lines) + '\n', expect
 
 
-def one_module(runner, core, path, d, src, expect0, src_root, with_option):
+def one_module(runner, core, path, d, src, expect0, src_root, with_option, style='freeform'):
     """Problem text or None for one module under one option setting."""
     conf = {'default_runtime_state': {'IGNORE_WHITESPACE': True}} if with_option else {}
     expect = {k: (('passed' if with_option else 'failed') if v == 'option' else v) for k, v in expect0.items()}
     # ---- native
     native = {}
-    for ex in core.parse_doctestables(path, style='freeform', analysis='static'):
+    for ex in core.parse_doctestables(path, style=style, analysis='static'):
         ex.mode = 'native'
         ex.config.update(conf)
         if ex.is_disabled():
             continue
         s = ex.run(on_error='return', verbose=0)
         native[ex.unique_callname] = 'failed' if s['failed'] else ('skipped' if s['skipped'] else 'passed')
-    summary = runner.doctest_module(path, command='all', style='freeform', verbose=0, config=dict(conf))
+    summary = runner.doctest_module(path, command='all', style=style, verbose=0, config=dict(conf))
     native_failed = summary['n_failed'] > 0
     # ---- pytest
     env = dict(os.environ, PYTHONPATH=src_root + os.pathsep + os.environ.get('PYTHONPATH', ''))
-    proc = subprocess.run([sys.executable, '-m', 'pytest', '--xdoctest', '--xdoctest-style=freeform', '-p', 'no:cacheprovider',
+    proc = subprocess.run([sys.executable, '-m', 'pytest', '--xdoctest', '--xdoctest-style=' + style, '-p', 'no:cacheprovider',
                            '-v', '--no-header'] + (['--xdoctest-options=+IGNORE_WHITESPACE'] if with_option else []) + [path],
                           cwd=d, env=env, capture_output=True, text=True, timeout=300)
     pyt = {}
@@ -102,23 +104,24 @@ def run(eng, tier, seed):
     n_mod = 2 if tier == 'quick' else 12
     try:
         for i in range(n_mod):
-            src, expect0 = gen_module(rnd, 8)
+            style = ('freeform', 'google', 'auto')[i % 3] if tier != 'quick' else ('freeform', 'google')[i % 2]
+            src, expect0 = gen_module(rnd, 8, 'freeform' if style == 'freeform' else 'google')
             d = os.path.join(tmp, 'm%d' % i)
             os.makedirs(d)
             path = os.path.join(d, 'agree_mod_%d.py' % i)
             with open(path, 'w') as f:
                 f.write(src)
             for with_option in ((False, True) if (i % 2 == 0 or tier != 'quick') else (False,)):
-                problem, proc = one_module(runner, core, path, d, src, expect0, src_root, with_option)
+                problem, proc = one_module(runner, core, path, d, src, expect0, src_root, with_option, style)
                 n += 1
                 if problem is not None:
-                    cex = {'module_source': src, 'problem': problem, 'pytest_tail': proc.stdout[-1500:]}
+                    cex = {'module_source': src, 'style': style, 'problem': problem, 'pytest_tail': proc.stdout[-1500:]}
                     break
             if cex is not None:
                 break
     finally:
         shutil.rmtree(tmp, ignore_errors=True)
     return {'bounded': [{'name': 'C15.pytest-vs-native',
-                         'bound': '%d generated modules of 8 doctests with constructed outcomes (13 shapes), freeform style, without and with a '
+                         'bound': '%d generated modules of 8 doctests with constructed outcomes (13 shapes), styles freeform / google / auto, without and with a '
                                   'default directive option (--xdoctest-options / config), pytest in a sub-process vs the native runner' % n_mod,
                          'evaluations': n, 'counterexample': cex}]}
